@@ -95,7 +95,11 @@ impl Builder {
 
 pub fn plan_session(p: &SessionParams, pool: &Pool) -> (Plan, SessionMeta) {
     let seed = derive_seed(p.root, LABEL_SESSION, p.idx);
-    let mut client = Rng::new(derive_seed(seed, 1, 0));
+    // Twin sessions: sessions 2k and 2k+1 draw the same working set (client stream) but have
+    // their own schedule and key streams, so every input is observed in at least two processes
+    // under two different histories (the `restart` kind with teeth).
+    let twin_seed = derive_seed(p.root, LABEL_SESSION, p.idx / 2);
+    let mut client = Rng::new(derive_seed(twin_seed, 1, 0));
     let mut sched = Rng::new(derive_seed(seed, 2, 0));
     let mut keys = Rng::new(derive_seed(seed, 3, 0));
     let mut meta = SessionMeta {
@@ -128,8 +132,9 @@ pub fn plan_session(p: &SessionParams, pool: &Pool) -> (Plan, SessionMeta) {
     }
     let workers = sched.range(1, 4);
     let length = sched.range(p.min_steps, p.max_steps.max(p.min_steps));
-    let ws_size = sched.range(8, 256).min(length.max(8));
-    let corpus_share = *sched.pick(&[10usize, 30, 60]);
+    // the working set belongs to the twin pair, so its size and mix come from the client stream
+    let ws_size = client.range(8, 256);
+    let corpus_share = *client.pick(&[10usize, 30, 60]);
     meta.enabled = enabled.iter().map(|s| s.to_string()).collect();
     meta.key_policy = key_policy.to_string();
     meta.workers = workers;
